@@ -35,7 +35,8 @@ int run(const Args& a, Recorder& rec) {
         addprep({}, "all"); addprep({ { 0, 1, 0, 1 } }, "{0101}"); addprep({ { 1, 0, 0, 1 } }, "{1001}"); addprep({ { 0, 0, 0, 0 }, { 0, 1, 1, 0 } }, "{0000,0110}"); addprep({ { 1, 1, 1, 1 } }, "{1111}");
         for (int sp = 0; sp < 2; ++sp) { Op13 o; o.kind = 1; o.split = sp; o.repr = sp ? "computeAll(split)" : "computeAll(unsplit)"; A.push_back(o); }
         for (auto& q : all) { std::string qs = std::to_string(q[0]) + std::to_string(q[1]) + std::to_string(q[2]) + std::to_string(q[3]);
-            { Op13 o; o.kind = 2; o.q = q; o.repr = "lookup(" + qs + ")"; A.push_back(o); } { Op13 o; o.kind = 3; o.q = q; o.repr = "lookup+prepare+compute(" + qs + ")"; A.push_back(o); } }
+            { Op13 o; o.kind = 2; o.q = q; o.repr = "lookup(" + qs + ")"; A.push_back(o); } { Op13 o; o.kind = 3; o.q = q; o.repr = "lookup+prepare+compute(" + qs + ")"; A.push_back(o); }
+            { Op13 o; o.kind = 4; o.q = q; o.repr = "lookup+prepare(" + qs + ")"; A.push_back(o); } }     // prepared on demand, left for the next bulk computation
         // replay a history on a fresh container; returns abstract state key; evaluates invariants if own
         auto hrepr = [&](const std::vector<int>& h) { std::string s = mdl.first + ":"; for (size_t i = 0; i < h.size(); ++i) { s += (i ? ";" : ""); s += A[h[i]].repr; } if (h.empty()) s += "<new>"; return s; };
         auto replay = [&](const std::vector<int>& h, bool own, std::string& key) -> bool {
@@ -45,7 +46,7 @@ int run(const Args& a, Recorder& rec) {
                     if (o.kind == 0) { std::set<IndexCombination4> s; for (auto& q : o.set) s.insert(IndexCombination4(q[0], q[1], q[2], q[3])); X.prepareAll(s); }
                     else if (o.kind == 1) { X.computeAll(false, std::vector<FT>(), P.comm, o.split); last_bulk_ok = true; }
                     else if (o.kind == 2) { X(IndexCombination4(o.q[0], o.q[1], o.q[2], o.q[3])); }
-                    else { TwoParticleGF& e = X(IndexCombination4(o.q[0], o.q[1], o.q[2], o.q[3])); e.prepare(); e.compute(); }
+                    else { TwoParticleGF& e = X(IndexCombination4(o.q[0], o.q[1], o.q[2], o.q[3])); e.prepare(); if (o.kind == 3) e.compute(); }
                 } catch (ComputableObject::exStatusMismatch&) { alive = false; if (own) rec.counters["history_rejected_status_mismatch"]++; }
                   catch (std::exception& e) { alive = false; if (own) rec.violation("C13:call-throws:" + o.repr.substr(0, o.repr.find('(')), std::string("a container call throws: ") + e.what(), hr); }
             }
@@ -55,6 +56,7 @@ int run(const Args& a, Recorder& rec) {
             for (auto it = X.ElementsMap.begin(); it != X.ElementsMap.end(); ++it) { const TwoParticleGF* e = it->second.pElement.get(); if (!cls.count(e)) { int n = cls.size(); cls[e] = n; }
                 int pst = 0; for (auto* p : e->parts) pst = pst * 3 + p->Status; ks << it->first.Index1 << it->first.Index2 << it->first.Index3 << it->first.Index4 << ":p" << perm_id(it->second.FrequenciesPermutation) << ":e" << cls[e] << ":s" << const_cast<TwoParticleGF*>(e)->getStatus() << ":" << e->parts.size() << ":" << pst << ";"; }
             ks << "|"; for (auto it = X.NonTrivialElements.begin(); it != X.NonTrivialElements.end(); ++it) { const TwoParticleGF* e = it->second.get(); ks << it->first.Index1 << it->first.Index2 << it->first.Index3 << it->first.Index4 << ":s" << const_cast<TwoParticleGF*>(e)->getStatus() << ":e" << (cls.count(e) ? cls[e] : -1) << ";"; }
+            ks << (last_bulk_ok ? "|after-bulk" : "|");      // the 'evaluable after a bulk computation' clause looks at the last call: it is part of the state
             key = ks.str();
             if (!own) return true;
             // invariants
